@@ -38,6 +38,7 @@ func evalPanFuncCall(
 	kwargs *object.PanObj,
 	args ...object.PanObject,
 ) object.PanObject {
+	defer verifCall()()
 	// NOTE: copy is necessary otherwise recurred call breaks outer env! (see TestEvalRecurredFuncCall)
 	e := object.NewCopiedEnv(f.Env)
 	assignArgsToEnv(e, f.Args().Elems, f.Kwargs(), args, kwargs)
